@@ -1,8 +1,12 @@
 import os
+import copy
 import hashlib
 import json
 
+from tableschema.exceptions import CastError
+
 from ... import DataStreamProcessor, ResourceWrapper, schema_validator
+from ...base.schema_validator import wrap_handler
 
 
 class DumperBase(DataStreamProcessor):
@@ -66,6 +70,12 @@ class DumperBase(DataStreamProcessor):
 
     def process_datapackage(self, datapackage):
         datapackage = super(DumperBase, self).process_datapackage(datapackage)
+        # Incoming rows are described by the incoming schemas (file formats re-declare
+        # serialisation properties such as trueValues or temporal formats later on)
+        self.incoming_resources = dict(
+            (resource['name'], copy.deepcopy(resource))
+            for resource in datapackage.descriptor.get('resources', [])
+        )
         # Counters describe this dump only: restart counts carried over from an earlier dump
         descriptor = datapackage.descriptor
         stale = [(descriptor, prop) for prop in (self.datapackage_rowcount, self.datapackage_bytes)]
@@ -89,6 +99,26 @@ class DumperBase(DataStreamProcessor):
                 DumperBase.inc_attr(descriptor, self.resource_rowcount, counter)
         self.datapackage.commit()
 
+    def validator(self, resource):
+        options = dict(self.schema_validator_options)
+        incoming = getattr(self, 'incoming_resources', {}).get(resource.res.name)
+        if incoming is None:
+            return schema_validator(resource.res, resource, **options)
+        on_error = wrap_handler(options.pop('on_error', None) or schema_validator.raise_exception)
+        written = resource.res.schema
+
+        def handler(res_name, row, i, e, field):
+            # The value may already be in the serialisation format declared for the written file
+            if field is not None:
+                try:
+                    row[field.name] = written.get_field(field.name).cast_value(row.get(field.name))
+                    return True
+                except CastError:
+                    pass
+            return on_error(res_name, row, i, e, field)
+
+        return schema_validator(incoming, resource, on_error=handler, **options)
+
     def process_resources(self, resources):
         self.initialize()
 
@@ -97,8 +127,7 @@ class DumperBase(DataStreamProcessor):
             ret = self.process_resource(
                         ResourceWrapper(
                             resource.res,
-                            schema_validator(resource.res, resource,
-                                             **self.schema_validator_options)
+                            self.validator(resource)
                         )
             )
             ret = self.row_counter(resource, ret)
